@@ -89,5 +89,45 @@ CLAIMED = {
        'instruction x 4 witnesses, plain verdict computed on the same bytes before installation.',
   design_ref='DESIGN.md 4/C20', technique=T_ENUM.format('(code, count, depth) grids and fork-op x program products', 'the NOP semantics and an upgraded/plain differential'),
   note='Registries are restored in place after each fork case; fork counts 0,1,2.'),
+ 'C04': dict(
+  text='All binary tree shapes with 2..8 leaves (626 shapes; thorough 9 leaves) built with the real tree classes, every leaf: honest '
+       'proof runs exactly that leaf (recording contract) with its own verdict; every corruption (bit 0 of every script byte, sibling hash '
+       'bits at every level, node scripts, all level permutations, dropped levels, cross-leaf and foreign-tree proofs) for shapes up to 6/7 '
+       'leaves must be rejected with an empty recorder; builders for every leaf count 1..9/24 incl. fillers; pack/unpack for every shape.',
+  design_ref='DESIGN.md 4/C04', technique=T_ENUM.format('tree shapes x leaves x proof corruptions', 'an independent merkle model and a recording contract'),
+  note='SHA-256 collision resistance assumed; merkle model recomputed independently of tools.py.'),
+ 'C05': dict(
+  text='Root identity for seeds x scripts covering all 32 clamp-bit patterns (reference Ed25519); key path for all 255 builder flags x '
+       '{00, ff, flag, ~flag} x sigfield sets, all 512 signature and 256 root bit flips; script path with every byte of script and key '
+       'flipped, other keys/scripts, point-subtraction attack (recorder proves nothing ran); native == non-native for the C01 adversarial '
+       'witness family x 4 tails.',
+  design_ref='DESIGN.md 4/C05', technique=T_ENUM.format('seed/script/flag/corruption products', 'reference Ed25519 arithmetic and a recording contract'),
+  note='Witnesses that redefine function 0 or spend call budget are excluded from native/non-native equivalence (counted).'),
+ 'C13': dict(
+  text='Complete cross product of builder-made witness descriptors x lock descriptors over all seven builder families, keys A/B/C, '
+       'flag/allowed pairs, sigfield sets and contents, committed/surrogate scripts, 3 verifier contexts; every byte of positive witnesses '
+       'perturbed; two oracles (statement-level predicate, reference interpreter).',
+  design_ref='DESIGN.md 4/C13', technique=T_ENUM.format('the witness x lock cross product', 'a descriptor predicate and a reference interpreter'),
+  note='Data independence over key/field contents (DESIGN 2.6).'),
+ 'C14': dict(
+  text='Single lock: full product of window position (7) x may-delegate x certificate signer x clock slack 58..61 x final signer x 5 '
+       'flag pairs, all certificate byte flips. Chain lock: lengths 1..3/6, every single-link deviation at every position, all pairs for '
+       'length <=3, cross-chain splices, all orders, all marker patterns, prefix chains. Certificate pack/unpack over 13x13 boundary values.',
+  design_ref='DESIGN.md 4/C14', technique=T_ENUM.format('per-link setting products', 'a delegation model and a reference interpreter'),
+  note='Virtual clock; default slack threshold 60 only (run_auth_scripts cannot change it).'),
+ 'C15': dict(
+  text='Six lock kinds x signers x preimage choices x timeouts {0,1,86400} x t=deadline-1..+1 x t-now=59..61 (clock set to T0 at build time '
+       'and moved before the run); preimage lengths 1..64, SHAKE digest sizes, PTLC tweak scalars, flag/allowed pairs with covered/excluded '
+       'field changes, all 5x6 witness/lock cross pairings; model from the statement + reference interpreter.',
+  design_ref='DESIGN.md 4/C15', technique=T_ENUM.format('the (path, key, preimage, time) grid', 'an HTLC/PTLC model and a reference interpreter'),
+  note='Tweak scalars are valid 255-bit scalars.'),
+ 'C18': dict(
+  text='Setup: seeds x chain lengths 2..8/10 x every hop re-derived with reference arithmetic, own/substituted views through check_setup. '
+       'Release: explicit-state search to a fixpoint over sets of opened hops; every (target hop, opened hop, y) triple incl. second-chain '
+       'scalars and the final key on every hop is executed on the real builders (release_left_amhl_lock, decrypt_adapter, run_auth_scripts); '
+       'with/without refund keys, two flag values, per-hop sigfields rotating over all eight fields.',
+  design_ref='DESIGN.md 4/C18', technique='explicit-state search over release histories on the real builders against the AMHL model',
+  engine='E2-explorer',
+  note='Discrete-log hardness for the rejection direction.'),
 }
 NOT_YET = {p: 'check not built yet in this session (planned, see DESIGN.md section 4)' for p in ALL if p not in CLAIMED}
